@@ -299,14 +299,21 @@ func (s *Server) manifestPut(repoStr, arg string) http.HandlerFunc {
 		// the content-type header must be consistent with the manifest content
 		if mt != "" {
 			mtBody := struct {
-				MediaType string `json:"mediaType"`
+				MediaType string          `json:"mediaType"`
+				Config    json.RawMessage `json:"config"`
+				Layers    json.RawMessage `json:"layers"`
+				Manifests json.RawMessage `json:"manifests"`
 			}{}
 			mtDetect := ""
 			if err := json.Unmarshal(mRaw, &mtBody); err == nil {
 				mtDetect = types.MediaTypeDetect(mRaw)
 			}
+			// without any media type in the content, the fields present tell an image from an index
+			shapeImage := len(mtBody.Config) > 0 || len(mtBody.Layers) > 0
+			shapeIndex := len(mtBody.Manifests) > 0
 			if (mtBody.MediaType != "" && mtBody.MediaType != mt) ||
-				(mtBody.MediaType == "" && mtDetect != "" && types.MediaTypeIndex(mtDetect) != types.MediaTypeIndex(mt)) {
+				(mtBody.MediaType == "" && mtDetect != "" && types.MediaTypeIndex(mtDetect) != types.MediaTypeIndex(mt)) ||
+				(mtBody.MediaType == "" && mtDetect == "" && ((types.MediaTypeIndex(mt) && shapeImage && !shapeIndex) || (types.MediaTypeImage(mt) && shapeIndex && !shapeImage))) {
 				w.WriteHeader(http.StatusBadRequest)
 				_ = types.ErrRespJSON(w, types.ErrInfoManifestInvalid("manifest content does not match the media type: "+mt))
 				s.log.Debug("media type mismatch", "repo", repoStr, "arg", arg, "mediaType", mt, "mediaTypeContent", mtBody.MediaType)
